@@ -1,0 +1,5 @@
+// Package verifmap is a seam for verification builds (build tag "verif"): a deterministic simulator rewrites,
+// in a build overlay, every `for k, v := range m` over a map into a loop over the map's keys arranged by
+// verifmap.Arrange, so that the iteration order - which Go randomises from a source that cannot be seeded - can
+// be dictated per simulated node. Without the tag the package is empty and nothing refers to it.
+package verifmap
